@@ -53,8 +53,9 @@ def scenario_for(seed, index, tier):
     elif kind == 'few':
         allowed = rng.sample(usable, rng.randint(2, 6))
     else:
-        bad = rng.choice([0, 3, 48, 99999, -1, '1.7.10', 'nonsense', 2.5,
-                          None])
+        unsup_names = sorted(n for n in known if n not in names)
+        bad = rng.choice([0, 3, 48, 99999, -1, 'nonsense', 2.5, None] +
+                         rng.sample(unsup_names, min(6, len(unsup_names))))
         allowed = rng.sample(usable, 2) + [bad]
         rng.shuffle(allowed)
     if allowed is not None and kind != 'invalid':
@@ -70,7 +71,10 @@ def scenario_for(seed, index, tier):
         initial = rng.choice(sorted(byproto[p])) if p in byproto and \
             rng.random() < 0.4 else p
     else:
-        initial = rng.choice([0, 'bogus', 12345678])
+        unsup_names = sorted(n for n in known if n not in names)
+        initial = rng.choice([0, 'bogus', 12345678] +
+                             rng.sample(unsup_names,
+                                        min(4, len(unsup_names))))
     call = rng.choice(['connect', 'connect', 'connect', 'status'])
     auth = rng.random() < 0.3
     # what the server says on a status connection
